@@ -242,3 +242,69 @@ def child_limits(op):
     n = op.get("size_hint", 50)
     return {"cpu_s": int(op.get("cpu_s", 20 + n // 20)), "as_bytes": op.get("as_bytes", 4 << 30),
             "wall_s": op.get("wall_s", 900)}
+
+
+def run_blocks(op):
+    """API-level op for histories (C12): process op["history"] blocks, then op["block"], in this one
+    process, through optimize_asm_block_asm_format + compare_asm_block_asm_format, and report what
+    the *last* block got."""
+    import copy
+    env = op.get("env", {})
+    clock = simfs.SimClock(seed=env.get("clock_seed", 0), rate=env.get("clock_rate", 1.0))
+    fs = simfs.SimFS(clock)
+    solver = simsolver.SimSolver(fs, op.get("peer_plan", []), random.Random(0), clock)
+    solver.by_block = op.get("peer_by_block", {})
+    forves = SimForves(fs, None)
+    mods = seams.install(fs, env, solver=solver, forves=forves)
+    g = mods["gasol_asm"]
+    pa = mods["sfs_generator.parser_asm"]
+    constants = mods["global_params.constants"]
+    out = io.StringIO()
+    old_out, old_err = sys.stdout, sys.stderr
+    sys.stdout, sys.stderr = out, io.StringIO()
+    result = {"exc": None}
+    try:
+        g.init()
+        params = parse_argv(mods, ["/sim/in/h.txt", "-bl"] + op["argv"])
+        if params.split_storage:
+            constants.append_store_instructions_to_split()
+        constants._set_push0(params.push0)
+        g.modify_file_names(params)
+        seq = [(t, "hist%d" % i) for i, t in enumerate(op.get("history", []))] + [(op["block"], "target")]
+        for text, prefix in seq:
+            blocks = pa.parse_blocks_from_plain_instructions(text, "c", prefix)
+            for b in blocks:
+                rec = {"name": b.block_name}
+                try:
+                    sfs_snapshot = None
+                    real = g.compute_original_sfs_with_simplifications
+
+                    def spy(block, params_, _real=real, _rec=rec):
+                        d, subs = _real(block, params_)
+                        if "sfs" not in _rec:
+                            _rec["sfs"] = copy.deepcopy(d["syrup_contract"])
+                            _rec["subs"] = copy.deepcopy(subs)
+                        return d, subs
+                    g.compute_original_sfs_with_simplifications = spy
+                    try:
+                        new_block, log, stats = g.optimize_asm_block_asm_format(b, params)
+                    finally:
+                        g.compute_original_sfs_with_simplifications = real
+                    eq, reason = g.compare_asm_block_asm_format(b, new_block, params)
+                    rec["new"] = [(i.disasm, i.value) for i in new_block.instructions]
+                    rec["log"] = log
+                    rec["stats"] = [{k: v for k, v in row.items() if "time" not in k} for row in stats]
+                    rec["eq"] = bool(eq)
+                    rec["reason"] = reason
+                    rec["gas"] = (b.gas_spent, new_block.gas_spent)
+                except BaseException as e:
+                    rec["exc"] = "%s: %s" % (type(e).__name__, str(e)[:200])
+                if prefix == "target":
+                    result.setdefault("target", []).append(rec)
+    except BaseException as e:
+        result["exc"] = "%s: %s" % (type(e).__name__, str(e)[:300])
+    finally:
+        sys.stdout, sys.stderr = old_out, old_err
+    result["solver_calls"] = [(c["block"], c["kind"]) for c in solver.calls]
+    result["sim_time"] = clock.now - 1000.0
+    return result
